@@ -33,6 +33,53 @@ CLAIMED = {
     "C08": ("Coq theorems on the executable predicates (iff-specifications, soundness and completeness, symmetry, invariance under input order "
             "and injective renaming) + exact comparison of the predicates with cirkit's on generated circuits and pairs + set-based oracles",
             "Machine-checked proof that the model predicates meet the definitions; the implementation is compared with them exactly on every generated case.", ""),
+    "C01": ("Coq model of the denotation (coq/Exec.v den, evaluated exactly inside Coq) compared with the compiled circuit under every semiring x fold x optimize "
+            "x batch size (incl. batch == folds); theorem C02_folded_sound for the address-book evaluation; row-independence and shape oracles",
+            "The reference semantics is the executable Gallina denotation; every compiled output is compared with it as exact rationals inside Coq. "
+            "The folding theorem is machine-checked; the semiring morphism (exp/log) and the per-layer torch kernels are tied by correspondence only.",
+            "No theorem yet states compile_plain = den for the torch layer kernels: that part is correspondence (partial)."),
+    "C02": ("Coq theorem C02_folded_sound (consistent address book => folded evaluation = unfolded evaluation, modules arbitrary functions) + four-flag "
+            "differential on operator pipelines with parameters written through the registry + registry addressability checks + model denotation at the updated values",
+            "Machine-checked proof of address-book soundness on the abstract folded-graph model; the implementation's folding/optimisation is compared numerically "
+            "against the unfolded compilation and the model denotation on generated circuits.",
+            "The optimisation rewrite rules are not proved (correspondence only)."),
+    "C09": ("Model operators' refusal codes (coq/Ops.v res_code) compared with cirkit's exceptions on valid and malformed operands + verified structural predicates (C08) on results",
+            "Refusals and result structure are decided by the executable model operators and the verified predicates; compared with the implementation on generated valid/invalid operands.",
+            "Result-structure preservation is checked per instance with the verified predicates rather than proved once."),
+    "C10": ("Coq check that derived circuits introduce no learnable leaves (learn_subset on exported circuits) + model denotation at the CURRENT tensor values after random "
+            "histories of in-place updates / resets / load_state_dict + defining-relation oracles + storage-identity check",
+            "The operator theorems (C03-C07) are quantified over all parameter values, so the relations hold after any update provided derived circuits read the operands' tensors; "
+            "that sharing is checked on the implementation (registry, data_ptr) and against the model at the updated values.", ""),
+    "C11": ("Model integrate_m per sample (coq/Ops.v) compared with IntegrateQuery inside Coq + brute-force / quadrature marginals of the compiled circuit + symbolic integrate "
+            "compilation, over masks x formats x flags x batch sizes",
+            "Per-sample marginal = denotation of integrate_m at the sample, whose correctness is theorem C03; the query is compared with it on generated cases.", "Binomial inputs: oracle only (no symbolic rule)."),
+    "C12": ("Coq theorems C12_partition_one / C12_partition_function / softmax and mixing row sums / non-negativity and positivity + verified predicate normalised_struct on "
+            "exported template circuits + numeric Z = 1 before and after updates",
+            "Machine-checked proof that circuits built from normalised parts have partition function one for every parameter value; templates are certified per instance by the structural predicate.",
+            "Gaussian / Binomial normalisation of the input layers themselves is an analytic fact taken as hypothesis."),
+    "C13": ("Exact central difference quotient of the model's denotation (computed in Coq) vs autograd gradients mapped back through the registry + flag-independence + finite differences",
+            "The folding/denotation theorems hold over any commutative semiring (hence over dual numbers); gradients are tied numerically to the model's exact difference quotient.",
+            "torch autograd of primitive operations is trusted; no dual-number instantiation theorem yet (partial)."),
+    "C14": ("Executable Gallina semantics of every parameter node (coq/Pexpr.v peval) compared exactly inside Coq with compiled / folded parameter graphs over node types x shapes x "
+            "axes (both signs) x folds x compositions + translator route: shape/axis expressions regenerated from source and proved equal to the model (GenAgree.v)",
+            "Each node's mathematical definition is the Gallina function; the source's axis arithmetic is re-translated on every run and proved to select the declared axis.",
+            "Transcendental functions evaluated with 80-bit fixed point in the model."),
+    "C15": ("Chi-square test decided inside Coq with the model's exact probabilities (p < 1e-9) + positivity and column checks on the returned samples",
+            "Statistical correspondence only for the law of the sampler; the structural parts (columns, support) are exact.",
+            "No push-forward theorem yet; torch RNG trusted (partial)."),
+    "C16": ("Coq theorems C16_valid_spec, C16_sd_flag, C16_fully_factorized, C16_linear_tree + verified predicates evaluated on every exported region graph and circuit + dump/load round trip",
+            "Validity and the structured-decomposability flag are decided by verified predicates on every generated graph; two constructions are proved valid for all sizes.",
+            "RandomBinaryTree, QuadTree/QuadGraph, Poon-Domingos and Chow-Liu are certified per instance only."),
+    "C17": ("Coq theorems C17_axis, C17_dirichlet_shape, C17_foldwise_slice + translator route (GenAgree.source_simplex_axis over the current source) + per-slice value/flag checks through the registry",
+            "The axis/slice bookkeeping is proved for all ranks, axes and fold positions and tied to the source by re-translation on every run.", "Distributional facts (Dirichlet, uniform, normal) are torch's: checked numerically only."),
+    "C18": ("Coq theorems C18_contexts (token restoration for every well-bracketed history), C18_memo, C18_bijection, C18_operands_first + the model state machines run on the same random "
+            "call histories as cirkit (contexts nested / reused / exceptional exits, compile / lookup / operator calls)",
+            "Machine-checked invariants over all histories of the state-machine model; the implementation is compared with the model event by event.", ""),
+    "C19": ("Coq theorems C19_roundtrip / names on the state-dictionary model + save/load into freshly compiled instances, derived circuits, reset/load sequences + model denotation at the loaded values",
+            "Round-trip proved on the association-list model under unique equal names; names and reloaded values are checked on the implementation.", ""),
+    "C20": ("Model denotation of the exported template circuits compared with compiled outputs inside Coq + documented contractions (CP, Tucker, tensor train, HMM forward algorithm, "
+            "fully factorised, truth tables / model counts) computed from the parameters read through the registry",
+            "Templates are tied to their formulas by per-instance oracles and to the model by correspondence.", "No formula theorem yet (partial)."),
 }
 
 NOT_YET = {}
